@@ -63,6 +63,27 @@ Theorem C15_tree_test_sound l : git_tree_okb l = true -> git_tree_ok l.
 Proof. exact (git_tree_okb_sound l). Qed.
 Print Assumptions C15_tree_test_sound.
 
+(* a commit made of several operations (what the web and terminal interfaces and the bridges do): whatever files the
+   operations bring — shared between operations, repeated inside one, none — makeExtraTree followed by StoreTree yields
+   a tree git accepts, named file0 .. file<n-1> like the tree of one operation with n files, that references every file
+   of every operation exactly once *)
+Theorem C15_extra_tree_of_operations ops :
+  git_tree_ok (store_tree (make_extra ops)) /\
+  map e_name (make_extra ops) = map file_name (seq 0 (List.length (make_extra ops))) /\
+  (forall p, ps_nfiles p = List.length (make_extra ops) -> map e_name (extra_tree p) = map e_name (make_extra ops)) /\
+  NoDup (map e_hash (make_extra ops)) /\
+  (forall f, In f (List.concat ops) <-> In f (map e_hash (make_extra ops))).
+Proof. exact (extra_tree_of_ops ops). Qed.
+Print Assumptions C15_extra_tree_of_operations.
+
+(* whatever the repository's configuration says about the author and the committer (any text: angle brackets, line
+   feeds, nothing at all), the author and committer lines of a commit written by StoreSignedCommit are lines git fsck
+   accepts, given the date and time zone go-git appends are well formed *)
+Theorem C15_commit_lines_wellformed cfg d : date_tail_okb d = true ->
+  fsck_identb (author_prefix cfg ++ d)%list = true /\ fsck_identb (committer_prefix cfg ++ d)%list = true.
+Proof. exact (commit_lines_wellformed cfg d). Qed.
+Print Assumptions C15_commit_lines_wellformed.
+
 (* ---- non-vacuity ---- *)
 
 Definition id1 : Frame.str := repeat 97 64.
@@ -102,3 +123,19 @@ Example C15_unvalidated_id_escapes :
   foreign (apply_prim host (DRef (ref_local Bugs hostile_id))) <> foreign host /\
   foreign (run [ARemove Bugs hostile_id [lit "origin"]] host) = foreign host.
 Proof. repeat split; try (vm_compute; reflexivity). vm_compute. discriminate. Qed.
+
+(* two operations bring a, b and b, c, a: the second "file0" a per-operation counter would produce does not exist *)
+Example C15_extra_tree_example :
+  map (fun e => (e_name e, e_hash e)) (store_tree (make_extra [[7; 8]; []; [8; 9; 7]])) = [(lit "file0", 7); (lit "file1", 8); (lit "file2", 9)].
+Proof. vm_compute. reflexivity. Qed.
+
+(* the cleaning is necessary: the common configuration mistake of an address typed into the name, copied as it is,
+   gives a line git refuses (badDate); cleaned, and with nothing configured at all, the lines are accepted *)
+Example C15_commit_line_examples :
+  fsck_identb (ident_prefix (lit "Jane Doe <jane@acme.com>") (lit "jane@acme.com") ++ lit "1700000000 +0000")%list = false /\
+  fsck_identb (ident_prefix (lit "Jane Doe") (lit "<jane@acme.com>") ++ lit "1700000000 +0000")%list = false /\
+  author_prefix [(lit "user.name", lit "Host User"); (lit "author.name", lit "Jane Doe <jane@acme.com>")] = lit "Jane Doe jane@acme.com <> " /\
+  fsck_identb (lit "Jane Doe jane@acme.com <> 1700000000 +0000") = true /\
+  committer_prefix [(lit "user.name", lit "Host User")] = lit " <> " /\ fsck_identb (lit " <> 0 -0130") = true /\
+  date_tail_okb (lit "1700000000 +0000") = true /\ date_tail_okb (lit "01 +0000") = false /\ date_tail_okb (lit "1700000000 +000") = false.
+Proof. vm_compute. repeat split; reflexivity. Qed.
